@@ -138,6 +138,15 @@ def c06(result, slack=1):
             break
     if refused_at is not None and len(result.prompts) > refused_at + 1:
         errs.append(('asked-after-refusal', f'{len(result.prompts) - refused_at - 1} prompts after the user refused'))
+    # no lost waiter: nothing may still be waiting for something that is available
+    if result.exc is None:
+        have = set(f'{sec}.{k}' for sec, kv in result.solution.items() for k in kv)
+        for dep, ws in result.blocked_lists.items():
+            if dep in have and ws:
+                errs.append(('waiter-never-released', f'{sorted(ws)[:3]} still wait for {dep}, which has a value in the solution'))
+        for dep, ws in result.need_inputs_lists.items():
+            if dep in result.final_inputs and ws:
+                errs.append(('waiter-never-released', f'{sorted(ws)[:3]} still wait for input {dep}, which was supplied'))
     if result.log is not None:
         attempts = collections.Counter()
         waits = collections.defaultdict(set)
